@@ -209,10 +209,11 @@ func TestC14Transport(t *testing.T) {
 // then lets it go.
 
 type C14SharedCase struct {
-	Buf   int        `json:"buf"`
-	Conns int        `json:"conns"` // 2-3 connections
-	Held  int        `json:"held"`  // the connection whose answer is held back inside its store
-	IDs   [][]string `json:"ids"`   // per connection: TestReqIDs sent while the held answer is pending (the held connection's first ID is the pending one)
+	Buf    int        `json:"buf"`
+	Conns  int        `json:"conns"`            // 2-3 connections
+	Held   int        `json:"held"`             // the connection whose answer is held back inside its store
+	Leaver bool       `json:"leaver,omitempty"` // one more client logs on and hangs up before the requests are sent: the others are served as before
+	IDs    [][]string `json:"ids"`              // per connection: TestReqIDs sent while the held answer is pending (the held connection's first ID is the pending one)
 }
 
 func genC14Shared(t *rapid.T) *C14SharedCase {
@@ -229,6 +230,7 @@ func genC14Shared(t *rapid.T) *C14SharedCase {
 		}
 		c.IDs = append(c.IDs, ids)
 	}
+	c.Leaver = rapid.IntRange(0, 2).Draw(t, "leaver") == 0
 	return c
 }
 
@@ -258,7 +260,7 @@ func checkC14Shared(c *C14SharedCase, rec *evid.Rec) (vs []pbt.Violation) {
 		cfg := rig.Cfg{Role: "acceptor", HBMin: 1, HBMax: 60, HBInt: 30, Methods: []string{"0"}, Approve: "all", CloseTimeoutMs: 100, Buf: c.Buf,
 			Sender: "LIB", Target: "PEER", User: "alice", Pass: "secret"}
 		opts := rig.OptsFor(cfg) // ONE options object for every session
-		stores := make([]*heldStore, c.Conns)
+		stores := make([]*heldStore, c.Conns+1)
 		var next atomic.Int32
 		ar := rig.StartAcceptor(c.Buf, time.Minute, func(h simplefixgo.AcceptorHandler) {
 			i := int(next.Add(1)) - 1
@@ -276,6 +278,18 @@ func checkC14Shared(c *C14SharedCase, rec *evid.Rec) (vs []pbt.Violation) {
 			seqs[i] = 1
 			conns[i].Feed((&rig.InMsg{Type: rig.TLogon, Seq: "1", Sender: fmt.Sprintf("PEER%d", i), Target: "LIB", Fields: []rig.Tok{rig.F(rig.TagEncryptMethod, "0"), rig.F(rig.TagHeartBtInt, "30"),
 				rig.F(rig.TagUsername, "alice"), rig.F(rig.TagPassword, "secret")}}).Bytes())
+			synctest.Wait()
+		}
+		if c.Leaver {
+			lv := netsim.NewConn("leaver")
+			ar.L.Connect(lv)
+			synctest.Wait()
+			lv.Feed((&rig.InMsg{Type: rig.TLogon, Seq: "1", Sender: "LEAVER", Target: "LIB", Fields: []rig.Tok{rig.F(rig.TagEncryptMethod, "0"), rig.F(rig.TagHeartBtInt, "30"),
+				rig.F(rig.TagUsername, "alice"), rig.F(rig.TagPassword, "secret")}}).Bytes())
+			synctest.Wait()
+			lv.PeerClose() // this client goes away; nothing changes for the others
+			synctest.Wait()
+			time.Sleep(50 * time.Millisecond)
 			synctest.Wait()
 		}
 		testReq := func(i int, id string) {
@@ -339,6 +353,9 @@ func checkC14Shared(c *C14SharedCase, rec *evid.Rec) (vs []pbt.Violation) {
 	nontrivial := heldPending && others >= 1
 	rec.Case(evid.FPs(fmt.Sprint(c.Buf, c.Conns, c.Held, c.IDs)), nontrivial)
 	rec.Hist("shared-opts:engine")
+	if c.Leaver {
+		rec.Hist("shared-opts:another-client-left-before")
+	}
 	if nontrivial {
 		rec.Hist("shared-opts:answer-pending-while-another-session-answers")
 	}
